@@ -6,6 +6,7 @@ from .gen import strings, case, rand_string
 
 HARNESS = dict(name="fmt", source="fmt.cpp")
 
+# fork+more: two copies of a partially filled formatter go their own ways (the second renders its own arguments only)
 APIS = ["pct", "args", "stream", "conv", "args+stream", "args+conv", "pct+more", "copy+more", "fork+more"]
 
 
@@ -86,7 +87,7 @@ C08 = Prop(
     "C08", "fmt", ["NitroVerif.Props.C08"], gen_c08,
     rule="exhaustive: every format string of length <=7 over {'{','}','a'} x argument counts 0..k+1 x argument "
          "texts rotating through {'', x, {}, {, }} (all combinations for formats up to length 4), through "
-         "operator%, args(...), str(), conversion and operator<<; typed arguments (int, long long, char, double, "
+         "operator%, args(...), str(), conversion and operator<<, continued after a rendering (same object, a copy, two copies going their own ways); typed arguments (int, long long, char, double, "
          "std::string, const char*) in all pairs and sampled triples; exception messages through the constructor and "
          "raise(); seeded random formats of length <=30 incl. NUL/0xff. Non-trivial: the format has at least one "
          "placeholder (str) / more than one argument (exception message). Distinct = distinct case line. " \
